@@ -122,3 +122,18 @@ Proof.
   destruct (refine_list us) as [rs'| |] eqn:Er2; try discriminate. inversion R; subst rs'.
   exists ancs, nb, root, rest, us, rs. repeat split; auto. rewrite Er. exact Hnb.
 Qed.
+
+(* ---------- the model satisfies the checker ---------- *)
+Theorem model_satisfies_checker : forall c, check_case c (run_case c) = true.
+Proof.
+  intros c. unfold run_case.
+  destruct (gbind (root_template c) (construct GEN_FUEL (the_loader c))) as [co|e] eqn:E.
+  - apply gbind_ok in E as (t & Ht & Hc).
+    destruct (compiled_is_per_file _ _ _ _ (the_loader_wf c) (root_template_wf c t Ht) Hc)
+      as (ancs & nb & root & rest & us & rs & Ha & Er & Hnb & Hu & Hr & P).
+    unfold check_case, spec_out. rewrite Ht, Ha, Er. rewrite Er in Hnb. rewrite Hnb, Hu, Hr, P.
+    rewrite run_prog_ir_eq_run_template. apply obs_eqb_refl.
+  - unfold check_case. unfold run_case. rewrite E.
+    destruct e as [[k line pos| |]| | | | | | | | |]; simpl; try apply obs_eqb_refl;
+      rewrite ?Z.eqb_refl; try reflexivity; destruct k; reflexivity.
+Qed.
